@@ -33,57 +33,19 @@ theorem supported_lower : ∀ s ∈ supported, lowerAscii s = s := by decide
 theorem supported_far : ∀ s ∈ supported, ∀ t ∈ supported, s ≠ t → 2 < levenshtein s t := by decide +kernel
 theorem settings_entities_supported : "settings".toList ∈ supported ∧ "entities".toList ∈ supported := by decide
 
-/-- what the code computes, with the edit distance in place of the programme -/
-theorem misspelling_model (lower : Str → Str) (sup : List Str) (key : Str) (keys : List Str) (s : Str) :
-    s ∈ misspellCands lower sup key keys ↔
-      s ∈ keys ∧ lev (lower s) key ≤ 2 ∧ s ∉ sup ∧ startsWith s ['_'] = false := by
-  simp [misspellCands, lev_correct, List.mem_filter, and_assoc]
-
-/-- **misspelling_iff.**  If no present sheet differs from a supported name only by letter case (guard = the
-    complement of F28), sheet `s` is named in the warning for `key` iff it is a misspelling of `key` in the
-    sense of the specification. -/
-theorem misspelling_iff (lower : Str → Str) (sup : List Str) (key : Str) (keys : List Str)
-    (hlow : ∀ t ∈ sup, lower t = t)
-    (guard : ∀ s ∈ keys, lower s ∈ sup → s ∈ sup) (s : Str) :
+/-- **misspelling_iff** (unguarded since F28 was repaired: the membership test lower-cases the name).
+    Sheet `s` is named in the warning for `key` iff it is present and is a misspelling of `key` in the sense of
+    the specification: within edit distance 2, not a spelling (in any letter case) of a supported sheet name, not
+    underscore-prefixed. -/
+theorem misspelling_iff (lower : Str → Str) (sup : List Str) (key : Str) (keys : List Str) (s : Str) :
     s ∈ misspellCands lower sup key keys ↔ s ∈ keys ∧ isMisspelling lev lower sup key s = true := by
-  rw [misspelling_model]
-  simp only [isMisspelling, Bool.and_eq_true, decide_eq_true_eq, Bool.not_eq_true', List.contains_eq_mem,
-    decide_eq_false_iff_not]
-  constructor
-  · rintro ⟨hk, hd, hs, hu⟩
-    exact ⟨hk, ⟨hd, fun h => hs (guard s hk h)⟩, hu⟩
-  · rintro ⟨hk, ⟨hd, hs⟩, hu⟩
-    exact ⟨hk, hd, fun h => hs (by rw [hlow s h]; exact h), hu⟩
+  simp [misspellCands, isMisspelling, lev_correct, List.mem_filter]
 
-/-- **F28, exactly.**  Without the guard the code reports, besides the misspellings, precisely the case
-    variants of `key` itself. -/
-theorem misspelling_f28_exact (lower : Str → Str) (sup : List Str) (key : Str) (keys : List Str)
-    (hlow : ∀ t ∈ sup, lower t = t) (hkey : key ∈ sup)
-    (hfar : ∀ t ∈ sup, t ≠ key → 2 < lev t key) (s : Str) :
-    s ∈ misspellCands lower sup key keys ↔
-      s ∈ keys ∧ (isMisspelling lev lower sup key s = true ∨
-                  (lower s = key ∧ s ≠ key ∧ startsWith s ['_'] = false)) := by
-  rw [misspelling_model]
-  simp only [isMisspelling, Bool.and_eq_true, decide_eq_true_eq, Bool.not_eq_true', List.contains_eq_mem,
-    decide_eq_false_iff_not]
-  constructor
-  · rintro ⟨hk, hd, hs, hu⟩
-    refine ⟨hk, ?_⟩
-    by_cases hm : lower s ∈ sup
-    · right
-      have : lower s = key := by
-        by_cases hne : lower s = key
-        · exact hne
-        · have := hfar _ hm hne
-          omega
-      exact ⟨this, fun h => hs (h ▸ hkey), hu⟩
-    · left; exact ⟨⟨hd, hm⟩, hu⟩
-  · rintro ⟨hk, h | ⟨h1, h2, hu⟩⟩
-    · obtain ⟨⟨hd, hs⟩, hu⟩ := h
-      exact ⟨hk, hd, fun h => hs (by rw [hlow s h]; exact h), hu⟩
-    · refine ⟨hk, ?_, ?_, hu⟩
-      · rw [h1, lev_self]; omega
-      · intro h; exact h2 (by rw [← hlow s h]; exact h1)
+/-- a case variant of a supported name is never reported (the former F28 shape), for the current tables -/
+theorem case_variant_not_reported (key : Str) (keys : List Str) (s : Str)
+    (h : lowerAscii s ∈ supported) : s ∉ misspellCands lowerAscii supported key keys := by
+  rw [misspelling_iff]
+  simp [isMisspelling, h]
 
 /-- the hypotheses of the two theorems hold for the tables of the current source -/
 theorem misspelling_tables_ok :
@@ -93,7 +55,7 @@ theorem misspelling_tables_ok :
 
 example : misspellCands lowerAscii supported "settings".toList
     ["survey".toList, "Settings".toList, "setting".toList, "_setting".toList, "choices".toList]
-    = ["Settings".toList, "setting".toList] := by decide
+    = ["setting".toList] := by decide
 
 /-! ## IANA language codes -/
 
